@@ -7,6 +7,7 @@ import (
 	"iter"
 	"math"
 	"strings"
+	"sync/atomic"
 	"time"
 
 	"github.com/NethermindEth/juno/blockchain"
@@ -320,7 +321,7 @@ func (w *World) mkPre(plans []Plan, back int) []*pending.PreConfirmed {
 
 // realPage asks the real code for one page. tok "" = first page.
 func realPage(n *Node, w *World, q Q, pre []*pending.PreConfirmed, tok string) (pg Page) {
-	done := lib.WithDeadline(600*time.Second, func() {
+	done := lib.WithDeadline(patience(), func() {
 		err, panicked, _ := lib.Try(func() error {
 			addrs, keys := q.F.real()
 			if q.Rpc {
@@ -389,7 +390,20 @@ func realPage(n *Node, w *World, q Q, pre []*pending.PreConfirmed, tok string) (
 		}
 	})
 	if !done {
+		impatient.Store(true)
 		pg.Err = "hang"
 	}
 	return pg
+}
+
+// patience is how long one blocking call into the real code (a page, a notification) may take.
+// Generous, so that a loaded machine yields no finding; after the first expiry the rest of the run
+// waits 10 s only, so that a defect that stalls every call is reported within the run's time limit.
+var impatient atomic.Bool
+
+func patience() time.Duration {
+	if impatient.Load() {
+		return 10 * time.Second
+	}
+	return 600 * time.Second
 }
